@@ -197,73 +197,93 @@ def gen_case(rng, tier, idx, shard, nshards):
     spec["minimizer"] = minimizer
     spec["dea"] = dea
     L = int(rng.integers(5, 13 if tier == "quick" else 31))
-    return {"property": "C03", "spec": spec, "word_seed": int(rng.integers(0, 2**31)), "n_ops": L}
+    case = {"property": "C03", "spec": spec, "word_seed": int(rng.integers(0, 2**31)), "n_ops": L}
+    if gi < 4 * len(MUTATORS):
+        # stratified: one (fit type x mutator kind) template each: read core observables, mutate, read them again
+        case["template"] = MUTATORS[(gi // 4) % len(MUTATORS)]
+    return case
+
+
+def make_op(kind, rng, case, ref, state, n_do_fit):
+    """concrete op of the given kind for the current declared state, or None if not applicable"""
+    spec = case["spec"]
+    ftype = spec["type"]
+    m = ref.model
+    n = ref.n
+    fid = COST_ALIASES.get(spec.get("cost"), "unbinned")
+    if kind in ("add_error", "add_matrix_error"):
+        if ftype == "unbinned":
+            return None
+        k = state["n_src"]
+        state["n_src"] += 1
+        force = {"kind": "simple" if kind == "add_error" else "matrix"}
+        if not ref.sources and fid in NEEDS_ERRORS:
+            force["axis"] = "y"
+        return gen.gen_source(rng, n, ftype, "e%d" % k, yscale=float(np.mean(np.abs(ref.d)) + 0.5), force=force, allow_model=True, allow_x=(ftype == "xy" and len(ref.sources) > 0))
+    if kind == "disable_error":
+        en = [s["name"] for s in ref.sources if s["enabled"]]
+        # keep the first enabled source so that the total stays positive definite
+        return ["disable_error", en[int(rng.integers(1, len(en)))]] if len(en) >= 2 else None
+    if kind == "enable_error":
+        dis = [s["name"] for s in ref.sources if not s["enabled"]]
+        return ["enable_error", dis[int(rng.integers(0, len(dis)))]] if dis else None
+    if kind == "add_parameter_constraint":
+        return gen.gen_constraint(rng, m.pnames, list(ref.p), force_kind="simple")
+    if kind == "add_matrix_parameter_constraint":
+        return gen.gen_constraint(rng, m.pnames, list(ref.p), force_kind="matrix") if len(m.pnames) >= 2 else None
+    if kind == "set_parameter_values":
+        k = int(rng.integers(1, len(m.pnames) + 1))
+        idx = rng.choice(len(m.pnames), size=k, replace=False)
+        vals = {m.pnames[int(i)]: float(np.round(m.defaults[int(i)] * rng.uniform(0.85, 1.15) + rng.uniform(-0.02, 0.02), 5)) for i in idx if m.pnames[int(i)] not in ref.fixed}
+        return ["set_parameter_values", vals] if vals else None
+    if kind == "set_all_parameter_values":
+        vals = gen.perturbed_params(rng, m, 0.1)
+        return ["set_all_parameter_values", [float(ref.fixed.get(nm, v)) for nm, v in zip(m.pnames, vals)]]
+    free = [nm for nm in m.pnames if nm not in ref.fixed]
+    if kind == "fix_parameter":
+        if len(free) <= 1:
+            return None
+        nm = free[int(rng.integers(0, len(free)))]
+        v = None if rng.random() < 0.5 else float(np.round(m.defaults[m.pnames.index(nm)] * rng.uniform(0.9, 1.1), 5))
+        return ["fix_parameter", nm, v]
+    if kind == "release_parameter":
+        return ["release_parameter", sorted(ref.fixed)[int(rng.integers(0, len(ref.fixed)))]] if ref.fixed else None
+    if kind == "limit_parameter":
+        nm = m.pnames[int(rng.integers(0, len(m.pnames)))]
+        c = float(ref.p[m.pnames.index(nm)])
+        w = abs(c) * 3.0 + 1.0
+        return ["limit_parameter", nm, float(np.round(c - w, 4)), float(np.round(c + w, 4))]
+    if kind == "unlimit_parameter":
+        return ["unlimit_parameter", sorted(ref.limits)[int(rng.integers(0, len(ref.limits)))]] if ref.limits else None
+    if kind == "set_data":
+        return gen_set_data(rng, case, ref)
+    if kind == "do_fit":
+        return ["do_fit"] if n_do_fit < 2 else None
+    raise KeyError(kind)
+
+
+KIND_WEIGHTS = [("add_error", 5), ("add_matrix_error", 4), ("disable_error", 6), ("enable_error", 6), ("add_parameter_constraint", 5), ("add_matrix_parameter_constraint", 3), ("set_parameter_values", 10), ("set_all_parameter_values", 4), ("fix_parameter", 4), ("release_parameter", 3), ("limit_parameter", 3), ("unlimit_parameter", 2), ("set_data", 4), ("do_fit", 3)]
 
 
 def choose_op(rng, case, ref, state, n_do_fit):
     """state-dependent op generator; returns an op"""
     spec = case["spec"]
     ftype = spec["type"]
-    m = ref.model
-    n = ref.n
     fid = COST_ALIASES.get(spec.get("cost"), "unbinned")
-    r = rng.random()
-    names = [s["name"] for s in ref.sources]
     if ftype != "unbinned" and fid in NEEDS_ERRORS and not any(s["enabled"] and gen.norm_axis(s.get("axis")) != "x" for s in ref.sources):
         # costs that need uncertainties are only defined once a y source is declared: declare one first
         k = state["n_src"]
         state["n_src"] += 1
-        return gen.gen_source(rng, n, ftype, "e%d" % k, yscale=float(np.mean(np.abs(ref.d)) + 0.5), force={"axis": "y", "kind": "simple", "shape": "vec"}, allow_model=True, allow_x=False)
-    if r < 0.42:
+        return gen.gen_source(rng, ref.n, ftype, "e%d" % k, yscale=float(np.mean(np.abs(ref.d)) + 0.5), force={"axis": "y", "kind": "simple", "shape": "vec"}, allow_model=True, allow_x=False)
+    if rng.random() < 0.42:
         return ["read", None]  # observable chosen by the caller (needs the live fit's property list)
-    if ftype != "unbinned":
-        if r < 0.52:
-            k = state["n_src"]
-            state["n_src"] += 1
-            yscale = float(np.mean(np.abs(ref.d)) + 0.5)
-            force = {}
-            if not ref.sources and fid in NEEDS_ERRORS:
-                force = {"axis": "y"}
-            return gen.gen_source(rng, n, ftype, "e%d" % k, yscale=yscale, force=force, allow_model=True, allow_x=(ftype == "xy" and len(ref.sources) > 0))
-        if r < 0.59 and names:
-            en = [s["name"] for s in ref.sources if s["enabled"]]
-            # keep at least one enabled y source so that the total stays positive definite
-            if len(en) >= 2:
-                return ["disable_error", en[int(rng.integers(1, len(en)))]]
-        if r < 0.66:
-            dis = [s["name"] for s in ref.sources if not s["enabled"]]
-            if dis:
-                return ["enable_error", dis[int(rng.integers(0, len(dis)))]]
-    if r < 0.70:
-        return gen.gen_constraint(rng, m.pnames, list(ref.p))
-    if r < 0.80:
-        k = int(rng.integers(1, len(m.pnames) + 1))
-        idx = rng.choice(len(m.pnames), size=k, replace=False)
-        vals = {m.pnames[int(i)]: float(np.round(m.defaults[int(i)] * rng.uniform(0.85, 1.15) + rng.uniform(-0.02, 0.02), 5)) for i in idx if m.pnames[int(i)] not in ref.fixed}
-        if vals:
-            return ["set_parameter_values", vals]
-    if r < 0.84:
-        vals = gen.perturbed_params(rng, m, 0.1)
-        vals = [float(ref.fixed.get(nm, v)) for nm, v in zip(m.pnames, vals)]
-        return ["set_all_parameter_values", vals]
-    free = [nm for nm in m.pnames if nm not in ref.fixed]
-    if r < 0.88 and len(free) > 1:
-        nm = free[int(rng.integers(0, len(free)))]
-        v = None if rng.random() < 0.5 else float(np.round(m.defaults[m.pnames.index(nm)] * rng.uniform(0.9, 1.1), 5))
-        return ["fix_parameter", nm, v]
-    if r < 0.90 and ref.fixed:
-        return ["release_parameter", sorted(ref.fixed)[int(rng.integers(0, len(ref.fixed)))]]
-    if r < 0.93:
-        nm = m.pnames[int(rng.integers(0, len(m.pnames)))]
-        c = float(ref.p[m.pnames.index(nm)])
-        w = abs(c) * 3.0 + 1.0
-        return ["limit_parameter", nm, float(np.round(c - w, 4)), float(np.round(c + w, 4))]
-    if r < 0.945 and ref.limits:
-        return ["unlimit_parameter", sorted(ref.limits)[int(rng.integers(0, len(ref.limits)))]]
-    if r < 0.97:
-        return gen_set_data(rng, case, ref)
-    if n_do_fit < 2:
-        return ["do_fit"]
+    kinds = [k for k, _ in KIND_WEIGHTS]
+    w = np.array([x for _, x in KIND_WEIGHTS], dtype=float)
+    for _ in range(6):
+        kind = str(rng.choice(kinds, p=w / w.sum()))
+        op = make_op(kind, rng, case, ref, state, n_do_fit)
+        if op is not None:
+            return op
     return ["read", None]
 
 
@@ -440,12 +460,34 @@ def run_case(ctx, case):
     read_before = {}  # obs -> mut_count at first read
     nontrivial = False
     prev_kind = None
+    tmpl, tpos = [], [0]
     k = 0
     while True:
         if words is not None:
             if k >= len(words):
                 break
             op = words[k]
+        elif case.get("template"):
+            # [setup source if needed] read x3, (prerequisite mutator), mutator of the template kind, same reads again
+            if not tmpl:
+                core = [o for o in CORE_OBS if o in obs_names]
+                picks = [core[int(i)] for i in rng.choice(len(core), size=4, replace=False)]
+                pre = {"enable_error": ["add_error", "add_error", "disable_error"], "disable_error": ["add_error", "add_error"], "release_parameter": ["fix_parameter"], "unlimit_parameter": ["limit_parameter"]}.get(case["template"], [])
+                tmpl.extend([("setup", None)] + [("mut", p) for p in pre] + [("read", o) for o in picks] + [("mut", case["template"])] + [("read", o) for o in picks])
+            if tpos[0] >= len(tmpl):
+                break
+            what, arg = tmpl[tpos[0]]
+            tpos[0] += 1
+            if what == "setup":
+                op = choose_op(rng, case, live.ref, state, n_do_fit)
+                if op[0] == "read" or op[0] not in ("add_error",):
+                    continue  # no setup needed
+            elif what == "read":
+                op = ["read", arg]
+            else:
+                op = make_op(arg, rng, case, live.ref, state, n_do_fit)
+                if op is None:
+                    continue
         else:
             if k >= case["n_ops"]:
                 break
